@@ -5,7 +5,9 @@ from __future__ import annotations
 
 import json
 import os
+import random
 import time
+import traceback
 
 from . import scen, simcheck
 
@@ -22,6 +24,12 @@ def sched_for(k):
     if c["kind"] == "scripted":
         c["seed"] = k
     return c
+
+
+def harness_fault(e):
+    """True if the exception was raised by the monitor's own code (innermost frame under rt/), i.e. a checker bug, not a finding."""
+    tb = traceback.extract_tb(e.__traceback__)
+    return bool(tb) and os.sep + "rt" + os.sep in tb[-1].filename
 
 
 def write_replay(prop, name, doc):
@@ -96,6 +104,10 @@ def replay_file(doc):
         r = check_resume(doc["scenario"], doc["point"], doc["mode"], _trajectory(ref))
         hit = r is not None and r[0] == doc["clause"]
         return hit, (f"{r[0]}: {r[1]}" if hit else "clause holds on this tree")
+    if doc.get("kind") == "stoch_monitor":
+        r = _stoch_run(doc["seed"])
+        hit = [b for b in r["bad"] if b[0] == doc["clause"]]
+        return bool(hit), "\n".join(f"{a}: {b}" for a, b in hit) or "clause holds on this tree"
     if doc.get("kind") == "fn_monitor":
         from . import fnmon
         return fnmon.replay(doc)
@@ -236,3 +248,120 @@ def simcheck_digest(sim):
     d.pop("evses", None)
     d["evses"] = {k: (type(e).__name__, e._current_pilot, None if e._ev is None else e._ev._session_id) for k, e in sim.network._EVSEs.items()}
     return d
+
+
+# ============================================================================ C19 / C02: whole simulations on a StochasticNetwork
+def stochastic_sim_monitor(task):
+    import random as pyrandom
+    import warnings
+    import numpy as np
+    from acnportal import acnsim, algorithms
+    from acnportal.contrib.acnsim.network.stochastic_network import StochasticNetwork
+    prop, tier, seed0 = task["prop"], task.get("tier", "quick"), int(task.get("seed", 0))
+    n = 300 if tier == "quick" else 5000
+    t0 = time.time()
+    evals = 0
+    distinct = set()
+    viol = []
+
+    def bad(tag, detail, seed):
+        if len(viol) < 5:
+            rp = write_replay(prop, f"stoch_{tag}_{seed}.json", dict(kind="stoch_monitor", property=prop, clause=tag, detail=detail, seed=seed))
+            viol.append(dict(what=f"{tag}: {detail}"[:300], replay=rp))
+
+    for k in range(n):
+        seed = seed0 * 100003 + k
+        evals += 1
+        try:
+            r1 = _stoch_run(seed)
+            r2 = _stoch_run(seed)
+        except Exception as e:
+            if harness_fault(e):
+                return dict(label=task.get("label", "stochastic_sim_monitor"), error=f"seed {seed}: {type(e).__name__}: {e}")
+            bad("run_completes", f"{type(e).__name__}: {e}", seed)
+            continue
+        distinct.add(r1["shape"])
+        for tag, detail in r1["bad"]:
+            if prop == "C19" or tag.startswith("C02"):
+                bad(tag, detail, seed)
+        if prop == "C19" and (r1["traj"] != r2["traj"]):
+            bad("reproducible_under_a_fixed_seed", "two runs with the same seed differ", seed)
+    return dict(label=task.get("label", "stochastic_sim_monitor"),
+                bound=f"{n} seeded simulations on a StochasticNetwork: 1-3 stations, 3-8 sessions with more simultaneous sessions than stations, "
+                      f"early_departure on/off, uncontrolled / FCFS schedulers, each run twice under the same seed",
+                evaluations=evals, distinct_nontrivial=len(distinct), violations=viol, wall_s=round(time.time() - t0, 2))
+
+
+def _stoch_run(seed):
+    import random as pyrandom
+    import warnings
+    import numpy as np
+    from acnportal import acnsim, algorithms
+    from acnportal.contrib.acnsim.network.stochastic_network import StochasticNetwork
+    from acnportal.acnsim.network.charging_network import ChargingNetwork
+    r = random.Random(seed)
+    early = r.random() < 0.6
+    net = StochasticNetwork(early_departure=early)
+    ns = r.randint(1, 3)
+    volts = {}
+    for i in range(ns):
+        v = r.choice([208, 240])
+        volts[f"S{i}"] = v
+        net.register_evse(acnsim.EVSE(f"S{i}", max_rate=32), v, 0)
+    events, sess = [], {}
+    for j in range(r.randint(3, 8)):
+        a = r.randint(0, 6)
+        d = a + r.randint(1, 8)
+        energy = r.choice([0.3, 1.0, 3.0, 20.0])
+        ev = acnsim.EV(a, d, energy, "S0", f"s{j}", acnsim.Battery(energy + r.choice([0, 5]), 0, 7.0))
+        sess[f"s{j}"] = (a, d)
+        events.append(acnsim.PluginEvent(a, ev))
+    sch = algorithms.UncontrolledCharging() if r.random() < 0.5 else algorithms.SortedSchedulingAlgo(algorithms.first_come_first_served)
+    sch.max_recompute = 1
+    period = r.choice([1, 5])
+    sim = acnsim.Simulator(net, sch, acnsim.EventQueue(events), scen.START, period=period, verbose=False)
+    occ_log = {}
+    orig = ChargingNetwork.update_pilots
+
+    def w(self, pilots, i, p):
+        occ_log[i] = {k: (None if e._ev is None else e._ev._session_id) for k, e in self._EVSEs.items()}
+        conn = [x for x in occ_log[i].values() if x is not None]
+        if len(conn) != len(set(conn)):
+            bad.append(("no_station_holds_two", f"t={i}: {occ_log[i]}"))
+        if len(self.waiting_queue) > 0 and any(x is None for x in occ_log[i].values()):
+            bad.append(("nobody_waits_while_a_station_is_free", f"t={i}: {occ_log[i]} waiting {list(self.waiting_queue)}"))
+        for sid_ in conn:
+            a_, d_ = sess[sid_]
+            if not (a_ <= i < d_):
+                bad.append(("connected_only_between_arrival_and_departure", f"t={i}: {sid_} [{a_},{d_})"))
+        return orig(self, pilots, i, p)
+    bad = []
+    pyrandom.seed(seed)
+    ChargingNetwork.update_pilots = w
+    try:
+        with warnings.catch_warnings():
+            warnings.simplefilter("ignore")
+            sim.run()
+    finally:
+        ChargingNetwork.update_pilots = orig
+    if any(e._ev is not None for e in net._EVSEs.values()) or len(net.waiting_queue) > 0:
+        bad.append(("every_session_gone_at_the_end", f"occupants {[e._ev._session_id for e in net._EVSEs.values() if e._ev is not None]} waiting {list(net.waiting_queue)}"))
+    ids = list(net.station_ids)
+    T = sim._iteration
+    never = 0
+    for sid_, ev in sim.ev_history.items():
+        want = sum(float(sim.charging_rates[ids.index(s), t]) * volts[s] / 1000 * period / 60
+                   for t, occ in occ_log.items() for s, o in occ.items() if o == sid_ and t < T)
+        if abs(ev._energy_delivered - want) > 1e-8 * max(1.0, abs(want)):
+            bad.append(("C02.delivered_equals_sum_rate_x_V_x_dt", f"{sid_}: reported {ev._energy_delivered} recorded {want}"))
+        if not any(o == sid_ for occ in occ_log.values() for o in occ.values()):
+            never += 1
+    for t, occ in occ_log.items():
+        for s, o in occ.items():
+            if o is None and t < T and float(sim.charging_rates[ids.index(s), t]) != 0.0:
+                bad.append(("C02.vacant_station_records_zero", f"t={t} {s}: {sim.charging_rates[ids.index(s), t]}"))
+    if net.never_charged > never:
+        bad.append(("never_charged_counts_only_sessions_that_never_connected", f"counter {net.never_charged}, sessions never connected {never}"))
+    traj = (T, sim.charging_rates[:, :T].tolist(), sim.pilot_signals[:, :T].tolist(), sorted((k, e._energy_delivered) for k, e in sim.ev_history.items()),
+            net.swaps, net.never_charged, net.early_unplug, sorted(occ_log.items()))
+    return dict(bad=bad, traj=traj, shape=(ns, len(sess), early, period, type(sch).__name__, seed))
